@@ -1,8 +1,9 @@
 (** C03 — the FORM of an index argument does not matter: a bare integer index of delete / remove (a Python int, a numpy
     integer scalar of any width, a 0-d integer array: all shipped as [OInt]) is the one-element index list (a list, tuple,
     range, list of numpy scalars, integer ndarray of any dtype: all shipped as [OList]); insert / incorp: Proofs/C03_LMat
-    ([insert_scalar_as_list], [incorp_scalar_as_list]).  A 0-d array index of insert reaches numpy.insert unwrapped
-    (the source's guard is [isinstance(obj, (int, numpy.integer))]): that call is [old_op_insert] on [OInt]. *)
+    ([insert_scalar_as_list], [incorp_scalar_as_list]) and, for the source's test that decides which forms are wrapped into
+    a list before numpy.insert (a 0-d array included since the repair of C03-zero-dim-index-insert-moveaxis),
+    Proofs/C03_Kernel ([kernel_wraps], [kernel_insert_scalar], [old_zero_dim_insert_witness]). *)
 From PV Require Import Lib.Common Model.C03_LMat Proofs.C03_LMat.
 Local Open Scope Z_scope.
 
@@ -38,16 +39,3 @@ Lemma delete_scalar_witness :
   exists s', op_delete cDenseTaxaVariantMatrix w1_s 1 (OInt (-1)) = OK s' /\ shape s' = [2; 2]%nat /\
              op_remove cDenseTaxaVariantMatrix w1_s 1 (OList [-1]) = OK s'.
 Proof. eexists. split; [vm_compute; reflexivity|]. split; vm_compute; reflexivity. Qed.
-
-(** a 0-d array index passes the source's scalar guard unwrapped, so numpy.insert sees a scalar: the former scalar path
-    [old_op_insert].  On an inner array axis the inserted block arrives transposed under the right labels. *)
-Lemma zero_dim_insert_witness :
-  exists s1 s2, op_insert cDenseTaxaVariantMatrix w1_s 1 (OList [1]) w1_v = OK s1 /\
-                old_op_insert cDenseTaxaVariantMatrix w1_s 1 (OInt 1) w1_v = OK s2 /\
-                shape s1 = shape s2 /\ axes s1 = axes s2 /\ data s1 <> data s2 /\
-                data s1 = T2 [[0; 5; 6; 1; 2]; [10; 15; 16; 11; 12]] /\ data s2 = T2 [[0; 5; 15; 1; 2]; [10; 6; 16; 11; 12]].
-Proof.
-  eexists. eexists. split; [vm_compute; reflexivity|]. split; [vm_compute; reflexivity|].
-  split; [reflexivity|]. split; [reflexivity|]. split; [|split; vm_compute; reflexivity].
-  vm_compute. intros H. discriminate H.
-Qed.
